@@ -380,6 +380,11 @@ class _Gen:
             while v in live or v in self.used_names and v not in ("i", "j", "k", "ii", "jj"):
                 c += 1
                 v = f"{base}{c}"
+        if self.kn.hostile_names and r.random() < 0.12:
+            # a loop iterator that shadows an argument of the procedure
+            shadow = [a for a in list(self.sizes) + list(self.idxargs) if a not in str(hi) and a not in live]
+            if shadow:
+                v = r.choice(shadow)
         kind = "seq"
         if r.random() < self.kn.p_par:
             kind = "par"
